@@ -23,9 +23,9 @@ Definition vm_H (tbl : list (N * nat)) (c : list N) : N :=
 Definition vm_id (_ : nat) (l : list entry) : list entry := l.
 Section VM.
 Variable H : list N -> N.
-Notation RUNOP := (run_op H vm_id src_inplace src_unlink_first).
-Notation STEPS := (op_steps H vm_id src_inplace src_unlink_first).
-Notation HOP := (run_hop H vm_id src_inplace src_unlink_first).
+Notation RUNOP := (run_op H vm_id src_inplace src_unlink_first true).
+Notation STEPS := (op_steps H vm_id src_inplace src_unlink_first true).
+Notation HOP := (run_hop H vm_id src_inplace src_unlink_first true).
 Fixpoint vm_crash_call (s : st) (ops : list op) (j : nat) : st :=
   match ops with
   | [] => HOP s (Crashed SaveIndex 0)
@@ -34,12 +34,12 @@ Fixpoint vm_crash_call (s : st) (ops : list op) (j : nat) : st :=
   end.
 Definition vm_hist (hist : list (list op * option nat)) : st :=
   fold_left (fun s c => match snd c with
-                        | None => run H vm_id src_inplace src_unlink_first (fst c) s
+                        | None => run H vm_id src_inplace src_unlink_first true (fst c) s
                         | Some j => vm_crash_call s (fst c) j
                         end) hist init.
 Definition vm_view (hist : list (list op * option nat)) (fin : list op) (j : nat) (ids : list N) (expect : list entry) :=
   let s := vm_hist hist in
-  let fsk := crash_seq H vm_id src_inplace src_unlink_first s fin j in
+  let fsk := crash_seq H vm_id src_inplace src_unlink_first true s fin j in
   (layout_okb fsk,
    map (fun d => match files fsk (FBlob d) with
                  | Some f => Some (length (fcontent f), fro f) | None => None end) ids,
@@ -80,10 +80,10 @@ def _c10_vm_call(toks, blobs):
 
 def _c10_vm_goal(case, out):
     p = case.split(" ")
-    if p[0] != "K" or p[2].endswith("final=init") or "MODEL-NOT" in out:
+    if p[0] != "K" or p[2].endswith("final=init") or "MODEL-NOT" in out or "autosave=0" in p[2]:
         return None
     j = int(p[1])
-    f = dict(x.split("=", 1) for x in p[2].split(";"))
+    f = dict(x.split("=", 1) for x in p[2].split(";") if "=" in x)
     blobs = [tuple(int(y) for y in x.split(":")) for x in f["blobs"].split(",") if x]
     hist = []
     for it in [x for x in f["hist"].split(",") if x]:
